@@ -126,6 +126,61 @@ extern "C" int clients()
   return 0;
 }
 
+// ------------------------------------------------------------------------------------------------ listeners and establishers
+struct AcceptedCB : public Server::Client::ICallback
+{
+  unsigned reads, writes, closed; Server::Client* self;
+  AcceptedCB() : reads(0), writes(0), closed(0), self(0) {}
+  virtual void onRead() { ++reads; byte b[4]; usize n = 0; self->read(b, 4, n); }
+  virtual void onWrite() { ++writes; }
+  virtual void onClosed() { ++closed; g_p->remove(*(ClientImpl*)self); }
+};
+struct ListenCB : public Server::Listener::ICallback
+{
+  AcceptedCB client; unsigned accepted; bool refuse;
+  ListenCB() : accepted(0), refuse(false) {}
+  virtual Server::Client::ICallback* onAccepted(Server::Client& c, uint32 ip, uint16 port) { ++accepted; if(refuse) return 0; client.self = &c; return &client; }
+};
+struct EstCB : public Server::Establisher::ICallback
+{
+  AcceptedCB client; unsigned connected, abolished;
+  EstCB() : connected(0), abolished(0) {}
+  virtual Server::Client::ICallback* onConnected(Server::Client& c) { ++connected; client.self = &c; return &client; }
+  virtual void onAbolished() { ++abolished; }
+};
+extern "C" int accept_connect()
+{
+  {
+    Server::Private p; g_p = &p;
+    ListenCB lcb; EstCB ecb;
+    lcb.refuse = vf_pick(2);
+    Server::Listener* l = p.listen(Socket::loopbackAddress, 7000, lcb);
+    vf_assert(l != 0, "listen");
+    Server::Establisher* e = p.connect(Socket::loopbackAddress, 7001, ecb);
+    vf_assert(e != 0, "connect");
+    int lfd = (int)((Server::Private::ListenerImpl*)l)->getFileDescriptor();
+    int efd = (int)((Server::Private::EstablisherImpl*)e)->getFileDescriptor();
+    unsigned what = vf_pick(4);
+    if(what & 1) vf_net_pending_accept(lfd);         // a connection waits on the listening socket
+    if(what & 2) vf_net_writable(efd);               // the non-blocking connect has completed
+    for(unsigned round = 0; round < 3; ++round) { p.interrupt(); p.run(); }
+    vf_assert(lcb.accepted == ((what & 1) ? 1u : 0u), "an acceptable listener is dispatched exactly once per pending connection, an idle one never");
+    vf_assert(ecb.connected + ecb.abolished == ((what & 2) ? 1u : 0u), "a connected establisher is dispatched exactly once, a pending one never");
+    vf_assert(lcb.client.reads == 0 && lcb.client.writes == 0 && ecb.client.reads == 0 && ecb.client.writes == 0, "new clients get no read/write event while nothing is readable and no backlog exists");
+    if((what & 1) && !lcb.refuse)
+    {
+      // data for the accepted client: exactly a read notification
+      int cfd = (int)((ClientImpl*)lcb.client.self)->getFileDescriptor();
+      byte d[1] = {9}; vf_net_feed(cfd, d, 1);
+      p.interrupt(); p.run(); p.interrupt(); p.run();
+      vf_assert(lcb.client.reads == 1 && lcb.client.writes == 0, "a readable client registered for reading gets exactly a read event");
+    }
+    if((what & 1) && lcb.refuse) vf_assert(p._clients.size() == ((what & 2) && ecb.connected ? 1u : 0u), "a refused connection leaves no client behind");
+  }
+  vf_reach("end");
+  return 0;
+}
+
 // ------------------------------------------------------------------------------------------------ interrupts
 static void* interrupter(void* arg) { ((Server::Private*)arg)->interrupt(); return 0; }
 extern "C" int interrupts()
